@@ -42,8 +42,13 @@ def check_title(case, stats):
         line = " " * ind + "#" * depth + rest + "\n"
     else:
         line = " " * ind + rest + "\n"
-    stats.case((d, cat, kw, depth, ind, ti, variant), True, sample=case, labels=[variant, "depth=%d" % depth])
+    stats.case((d, cat, kw, depth, ind, ti, variant, case.get("history", 0)), True, sample=case, labels=[variant, "depth=%d" % depth] + (["after-history"] if case.get("history") else []))
     m = MD(d)
+    if case.get("history"):
+        # the same matcher has already recognised a feature header and seen other lines (no reset in between)
+        for hl, meth in (("# " + DIALECTS[d]["feature"][0] + ": earlier", "match_FeatureLine"), ("prose", "match_FeatureLine"), ("## " + DIALECTS[d]["scenario"][0] + ": s", "match_ScenarioLine"),
+                         ("```", "match_DocStringSeparator"))[: case["history"]]:
+            getattr(m, meth)(tok(hl + "\n"))
     t = tok(line)
     got = getattr(m, "match_" + role)(t)
     should = variant == "header" and 1 <= depth <= 6
@@ -80,6 +85,8 @@ def unit_titles(a):
                         for ind in range(0, 4):
                             for ti in range(len(TITLES) if (depth in (1, 6) and ind in (0, 3)) else 3):
                                 yield {"sub": "title", "dialect": d, "cat": cat, "kw": kw, "depth": depth, "indent": ind, "title": ti}
+                    for hist in (1, 2, 4):
+                        yield {"sub": "title", "dialect": d, "cat": cat, "kw": kw, "depth": 2, "indent": 0, "title": 1, "history": hist}
                     for ind in (0, 2):
                         for depth in (1, 3):
                             yield {"sub": "title", "dialect": d, "cat": cat, "kw": kw, "depth": depth, "indent": ind, "title": 1, "variant": "nospace"}
